@@ -11,6 +11,7 @@ Trusted: lalrpop's longest-match lexer and the `regex` crate implement the regex
 usage: c07_lexer.py [C07|C15]
 """
 import json
+import os
 import re
 import sys
 import time
@@ -210,6 +211,9 @@ def main():
                 # replay through /repo's real lexer: a word the lexer skips entirely leaves the empty program
                 import subprocess
                 try:
+                    # the helper is generated from /repo's current grammar: rebuild it first (a no-op when it is up to date)
+                    subprocess.run(["cargo", "build", "--offline"], cwd="/verif/lalr", env=dict(os.environ, CARGO_NET_OFFLINE="true"),
+                                   stdout=subprocess.DEVNULL, stderr=subprocess.DEVNULL, timeout=600)
                     out = subprocess.run(["/verif/lalr/target/debug/parse_ast"], input=w, stdout=subprocess.PIPE, text=True, timeout=30).stdout.strip()
                     observed = out == 'OK {"Top":["Null"]}'
                     reproduced = observed != skipped_expected(w)
